@@ -7,11 +7,11 @@
 (*   after a refusal) | Complete{status} | Usable{ok}                          *)
 EXTENDS ClientLit, Json, IOUtils
 
-VARIABLES l, stale
+VARIABLES l, stale, unauth
 
 Trace == ndJsonDeserialize(IOEnv.TRACE_FILE)
 
-TraceInit == Init /\ l = 1 /\ stale = FALSE
+TraceInit == Init /\ l = 1 /\ stale = FALSE /\ unauth = FALSE
 
 AllLegal(c, toks) == \A i \in 1..Len(toks) : LegalToken(c, toks[i])
 
@@ -19,12 +19,13 @@ TraceNext ==
   /\ l <= Len(Trace)
   /\ l' = l + 1
   /\ stale' = IF Trace[l].ev = "Case" THEN Trace[l].case.stale ELSE stale
+  /\ unauth' = IF Trace[l].ev = "Case" THEN Trace[l].case.unauth ELSE unauth
   /\ LET r == Trace[l] IN
        \/ /\ r.ev = "Case"
           /\ cfg' = r.cfg /\ phase' = "idle" /\ wrote' = 0 /\ status' = "none" /\ alive' = TRUE
-       \/ /\ r.ev = "Send" /\ AllLegal(Effective(cfg, stale), r.tokens)
+       \/ /\ r.ev = "Send" /\ AllLegal(Effective(cfg, stale, unauth), r.tokens)
           /\ IF r.sync THEN Announce ELSE (phase \in {"idle", "granted"} /\ phase' = "sent" /\ UNCHANGED <<cfg, wrote, status, alive>>)
-       \/ r.ev = "Rest" /\ AllLegal(Effective(cfg, stale), r.tokens) /\ phase = "sent" /\ UNCHANGED vars
+       \/ r.ev = "Rest" /\ AllLegal(Effective(cfg, stale, unauth), r.tokens) /\ phase = "sent" /\ UNCHANGED vars
        \/ r.ev = "Grant" /\ ServerGrant
        \/ r.ev = "Refuse" /\ ServerRefuse
        \/ r.ev = "Payload" /\ WritePayload(r.n)
